@@ -25,6 +25,8 @@ func runC16(c *Ctx) {
 	c.U0()
 	c.ruleR16a("R16a value-shape-inference")
 	c.ruleR16b("R16b sep-by-shape")
+	c.ruleR16c("R16c json-number-syntax-covered")
+	c.ruleR16d("R16d interpreters-store-every-element")
 }
 
 // ---- abstract grammar values
